@@ -270,12 +270,12 @@ func TestVerif_C45(t *testing.T) {
 			for _, op := range ops {
 				err := op.run()
 				out1, in1 := c45Snap(base, root)
-				if out1 != out0 {
-					w.Failf("C45/confinement/"+op.name+"/changed-outside-root", "Dir(%s).%s(%q) (err=%v) changed the tree outside the root:\nbefore:\n%s\nafter:\n%s", c45Styles[x.Style], op.name, x.Name, err, out0, out1)
-					return
-				}
 				if fi, e := os.Lstat(root); e != nil || !fi.IsDir() {
 					w.Failf("C45/root/"+op.name+"/root-gone", "after Dir.%s(%q) the root directory is gone (%v)", op.name, x.Name, e)
+					return
+				}
+				if out1 != out0 {
+					w.Failf("C45/confinement/"+op.name+"/changed-outside-root", "Dir(%s).%s(%q) (err=%v) changed the tree outside the root:\nbefore:\n%s\nafter:\n%s", c45Styles[x.Style], op.name, x.Name, err, out0, out1)
 					return
 				}
 				if nul {
